@@ -373,6 +373,9 @@ func c11Worker(w *c11worker, pool dyn.Pool, t *dyn.TypeOps, cf c11cfg, r *core.R
 			if al.Channels == 0 {
 				wantLength, wantCapacity = 0, 0
 			}
+			if b.BitDepth() != t.Bits {
+				fail("depth", fmt.Sprintf("goroutine %d cycle %d: Get returned a buffer of bit depth %d for element type %s", w.g, cy, b.BitDepth(), t.Name))
+			}
 			if b.Channels() != al.Channels || b.Length() != wantLength || b.Capacity() != wantCapacity || b.RawLen() != al.Channels*al.Length || b.RawCap() != al.Channels*al.Capacity {
 				fail("shape", fmt.Sprintf("goroutine %d cycle %d: Get returned %v, allocator {C=%d L=%d K=%d}", w.g, cy, mon.ShapeOf(b), al.Channels, al.Length, al.Capacity))
 			} else {
